@@ -150,15 +150,15 @@ def check(R, F):
         ok = inner.startswith('HintPointer::get(')
         src = None
         for s_, rx in (('qname', r'^HintPointer::get\(arg1\.qname@Some\.0\.pointer\)$'), ('most_recent_owner', r'^HintPointer::get\(arg1\.most_recent_owner@Some\.0\.pointer\)$'),
-                       ('most_recent_name_in_rdata', r'^HintPointer::get\(arg1\.most_recent_name_in_rdata@Some\.0\.pointer\)$'), ('explicit', r'^HintPointer::get\(arg2\.hint@Explicit\.0\)$'),
+                       ('most_recent_name_in_rdata', r'^HintPointer::get\(arg1\.most_recent_name_in_rdata@Some\.0\.pointer\)$'), ('explicit', r'^HintPointer::get\(arg\d(\.hint)?@Explicit\.0\)$'),
                        ('match', r'^HintPointer::get\(.*fold\(.*\)@Some\.0\.prior_pointer\)$|^HintPointer::get\(.*prior_pointer\)$')):
             if re.match(rx, inner):
                 src = s_
         g = paths.dom_guards(fn, b)
         if src == 'explicit':
-            ok = ok and any(re.match(r'^Lt\(cast\(HintPointer::get\(arg2\.hint@Explicit\.0\)\),arg1\.cursor\) not in \[0\]$', x) for x in g)
+            ok = ok and any(re.match(r'^Lt\(cast\(HintPointer::get\(arg\d(\.hint)?@Explicit\.0\)\),arg1\.cursor\) not in \[0\]$', x) for x in g)
         if src in ('qname', 'most_recent_owner', 'most_recent_name_in_rdata'):
-            ok = ok and ('discr(arg1.%s) in [1]' % src) in g
+            ok = ok and (('discr(arg1.%s) in [1]' % src) in g or ('discr(arg1.%s) not in [0]' % src) in g)
         R.require(ok and src is not None, 'pointer-source', '%s|emit-from-%s#%d' % (fn.gpath, src, k), fn.where(b), 'pointer value comes from the %s anchor' % src, 'a pointer is emitted with value %s, which is not a stored HintPointer (or an explicit hint not tested against the cursor)' % inner)
     R.require(len(emits) == 6, 'pointer-source', 'message::writer|emission-sites', '', '6 emission sites', 'found %d pointer emission sites, expected 6 (4 hinted, 2 in the scan)' % len(emits))
     hp = F.fn('message::writer::HintPointer::new')
